@@ -18,7 +18,8 @@ ASSUMPTIONS = ["requests are logged by the instrumented nodes immediately before
 FLOORS = {"requests_honoured": {"quick": 3000, "thorough": 40000}, "cycles_compared": {"quick": 4000, "thorough": 50000},
           "next_time_checks": {"quick": 4000, "thorough": 50000}, "requests_beyond_end": {"quick": 50, "thorough": 500},
           "nested_requests": {"quick": 200, "thorough": 2000}, "dynamic_child_runs_compared": {"quick": 1500, "thorough": 25000},
-          "combiner_requests_honoured": {"quick": 2000, "thorough": 30000}}
+          "combiner_requests_honoured": {"quick": 2000, "thorough": 30000},
+          "map_child_start_requests_honoured": {"quick": 100, "thorough": 1500}}
 BATCH = 25
 
 
@@ -38,6 +39,8 @@ def generate(rng, tier, seed):
         cases.append(c)
     for k in range(n // 4):
         cases.append(gen_reduce_timers(rng, f"c02_{seed}_rd{k}"))
+    for k in range(n // 8):
+        cases.append(gen_map_start_timers(rng, f"c02_{seed}_ms{k}"))
     return cases
 
 
@@ -66,6 +69,32 @@ def gen_reduce_timers(rng, name):
                        S("w", "pass", "t1", uid=103), S("", "RET", "x")]
     c.graphs["main"] = [S("d", "csrc", shape="tsd", uid=1), S("r", "reduce", "d", fn="fn2:1"), S("", "rec", "r", uid=50)]
     c.meta["kind2"] = "reduce_timers"
+    return c
+
+
+def gen_map_start_timers(rng, name):
+    """A keyed map whose function arms its FIRST wake-up from a start hook for a future time only and does not read the mapped
+    element: nothing in a new child is due in the cycle its key appears, so the request reaches the map node only through the
+    creation path. Keys arrive at different times, some leave before their wake-ups fall due. Oracle: trace only (as for the
+    reduction family) - every request made inside a child that is still alive at its time is honoured at exactly that time."""
+    from .prog import Case, S
+    from .c10 import gen_key_history
+    end = rng.choice([30, 45])
+    c = Case(name, 0, end)
+    hist = gen_key_history(rng, 0, end, rng.choice([2, 3, 5]))
+    if rng.random() < 0.5:
+        hist = [e for e in hist if "c" != e.split("|")[1]]
+    c.cscripts[1] = hist
+    first = rng.choice([2, 3, 5])
+    c.scripts[101] = [(first + j * rng.choice([2, 3]), 7 + j) for j in range(rng.choice([1, 3, 4]))]
+    c.scripts[101] = sorted(dict(c.scripts[101]).items())
+    body = [S("b", "src", uid=101, mode=rng.choice([0, 1]), rel=1), S("w", "pass", "b", uid=102)]
+    if rng.random() < 0.4:
+        body.append(S("dl", "delay", "w", uid=103, k=rng.choice([1, 2, 4])))
+    c.graphs["fn0"] = body + [S("", "RET", "w")]
+    c.graphs["main"] = [S("d", "csrc", shape="tsd", uid=1), S("m", "map", "d", fn="fn1:0"), S("", "cmirror", "m", uid=50)]
+    c.meta["kind2"] = "reduce_timers"
+    c.meta["family"] = "map_start_timers"
     return c
 
 
@@ -148,13 +177,15 @@ def check_reduce_timers(case, tr):
             retired += 1              # the combiner was retired before its wake-up fell due
             continue
         if t_when not in evals_at.get((gid, idx), ()):
-            res.violations.append(Violation(f"wake-up requested at t={t_made} for t={t_when} by uid {uid} inside combiner graph {gid} (alive "
+            res.violations.append(Violation(f"wake-up requested at t={t_made} for t={t_when} by uid {uid} inside child graph {gid} (alive "
                                             f"at that time) was not honoured: {'no root cycle at that time' if t_when not in cycles else 'the node was not evaluated in that cycle'}"))
             if len(res.violations) >= 4:
                 break
             continue
         honoured += 1
     res.counters = {"combiner_requests_honoured": honoured, "combiner_requests_retired": retired}
+    if case.meta.get("family") == "map_start_timers":
+        res.counters = {"map_child_start_requests_honoured": honoured, "map_child_requests_retired": retired}
     res.nontrivial = honoured >= 4
     return res
 
